@@ -128,6 +128,7 @@ func runC01(w *vx.W) {
 	c01Substitutions(c)
 	c01LyingSizes(c)
 	c01LocalSweep(c)
+	c01BeforeFileId(c)
 	c01Definitions(c)
 }
 
@@ -981,6 +982,48 @@ func c01LocalSweep(c *c01ctx) {
 			c.call("Decode", stream, 0)
 			c.call("DecodeChained", stream, 0)
 			w.Fam("i:zone-offset-sweep", 1)
+		}
+	}
+}
+
+// (j) records between the file_id definition and the first file_id data record: every pair of record-header bytes
+// (definitions of known / unknown messages, data for defined and undefined local types, compressed headers) with
+// model-expected bodies, followed by the file_id data record; the header / file_id entry points included.
+func c01BeforeFileId(c *c01ctx) {
+	w := c.w
+	pre := fitmodel.Concat(fitmodel.HeaderBytes(fitmodel.DefaultHeader, 0), fitmodel.FileIdRecords(0, 4)[0])
+	var idx int64
+	for h1 := 0; h1 < 256; h1++ {
+		for h2 := 0; h2 < 256; h2++ {
+			idx++
+			if !w.Mine(idx) {
+				continue
+			}
+			variants := 1
+			if h1&0xC0 == 0x40 {
+				variants = 5
+			}
+			for v := 0; v < variants; v++ {
+				var slots [16]int
+				for i := range slots {
+					slots[i] = -1
+				}
+				slots[0] = 1
+				b := append([]byte{}, pre...)
+				b = append(b, byte(h1))
+				b = append(b, c01Body(byte(h1), &slots, v)...)
+				b = append(b, byte(h2))
+				b = append(b, c01Body(byte(h2), &slots, 0)...)
+				b = append(b, fitmodel.FileIdRecords(0, 4)[1]...)
+				b = append(b, 0, 0)
+				fitmodel.Seal(b)
+				res := c.call("Decode", b, 0)
+				c.call("DecodeChained", b, 0)
+				c.call("DecodeHeaderAndFileID", b, 0)
+				c.call("Decode+options", b, 0)
+				w.Fam("j:records-before-file_id-data", 1)
+				w.DistinctS(fmt.Sprintf("pre/%02x/%s", h1&0xE0, errClass(res.Err)))
+			}
 		}
 	}
 }
